@@ -107,6 +107,11 @@ func householderTridiagonalization(inSitu *InSitu, epsilon float64) (Matrix, Mat
       s.Add(s, t)
     }
     s.Sqrt(s)
+    // without a reflection (beta = 0, the column is already reduced) the
+    // sub-diagonal entry keeps its sign
+    if beta.GetFloat64() == 0.0 && A.At(k+1,k).GetFloat64() < 0.0 {
+      s.Neg(s)
+    }
 
     A.At(k+1,k+0).Set(s)
     A.At(k+0,k+1).Set(s)
